@@ -11,10 +11,10 @@ SPEC = {
         "Coq 8.16.1 kernel (coqc; coqchk in the thorough tier); no native_compute",
         "harness/cmd/mkvs (drives the real mkvs.Tree / mkvs.NewOverlay stack on nop, badger and pathbadger node databases with small caches; records every Get / RemoveExisting answer and every iterated sequence as Coq terms)",
         "vm_compute evaluation of Verif.Mkvs.Overlay (s_run) on the recorded histories (no extraction)",
-        "modelled, not verified: the byte-level iterator state machine treeIterator.doNext (the model uses the specification iterator over the in-order contents; tied to the code by the correspondence runs), node cache LRU / lazy loading / (de)serialization (dimensions of the runs), tidwall/btree",
+        "the tree iterator evaluated on the recorded cases is the byte-level PORT of treeIterator.doNext (Mkvs/Iter.v, with the ported node.Key functions of Mkvs/Key.v), proved equal to the specification iterator on every well-formed tree (doNext_refines_seek); modelled abstractly, not line by line: node cache LRU order / node database / (de)serialization (Mkvs/Lazy.v and Mkvs/Step.v model eviction and re-fetch nondeterministically; the runs exercise the real ones), tidwall/btree",
     ],
     "assumptions": [
-        "known findings (known_findings.json): a failing case is attributed to C03:node-capacity-not-above-path-depth iff 0 < node_cap <= (deepest path of the reference trie)+1, else to C03:embedded-leaf-evicted-under-dirty-internal-node iff the value capacity is one of the small ones and an embedded leaf existed (proper-prefix key pair, or the VerifScan anomaly was seen); every other failure, in particular any failure with node_cap above the path depth and no small value capacity, or with a small value capacity but prefix-free keys, is a violation",
+        "known findings (known_findings.json): a failing case is attributed to a cache finding only on EVIDENCE: the identical history is re-run with ample capacities (node 5000 / value 16 MB, same backend); if it fails again it is a plain violation (and its model mismatch is not exempted); only if the ample-capacity rerun is clean it is attributed to C03:node-capacity-not-above-path-depth (iff 0 < node_cap <= deepest path of the reference trie + 1) or else to C03:embedded-leaf-evicted-under-dirty-internal-node (iff small value capacity and an embedded leaf existed: VerifScan anomaly or proper-prefix key pair); every other failure is a violation",
         "keys are byte strings (every element < 256); keys and values are non-nil slices (Tree.Insert(nil, v) and Overlay.Insert(k, nil) are out of contract: nil/empty confusion)",
         "an overlay is not modified while one of its iterators is in use; reopen (Close + NewWithRoot) happens with an empty overlay stack",
         "Overlay.Commit removes the remaining dirty keys in Go map order; the model uses list order (removals of distinct keys commute on the abstract map, proved)",
@@ -24,5 +24,5 @@ SPEC = {
 MANIFEST = {
     "technique": "Coq proof (refinement: representation invariant + abstraction function from the trie / pending-write-log / overlay-stack model to a stack of sorted association lists, by induction over operation histories; merged-iterator correctness by induction on fuel) with differential correspondence check against the real tree and overlays",
     "level_text": "Theorems in coq/Props/C03.v hold for every operation history over insert / remove / remove-existing / get / seek+next / tree commit / reopen / overlay push, commit, discard, copy, with and without the pending write log: every answer of the model equals that of the abstract machine (a stack of ordered maps) and the abstraction commutes (tree_refines_map, overlay_stack_refines_map); seek yields exactly the live entries with key >= k in ascending order through any stack of overlays (iterator_refines_map, merged_iterator_sorted_complete). The model is tied to the code by replaying seeded histories on the real implementation (three backends, cache capacities from 1) and comparing every returned value and iterated sequence with the model evaluated inside Coq; an independent Go reference map checks the same answers on the implementation alone.",
-    "level_note": "Trusted: Coq kernel; harness. Not covered by the theorems: the byte-level doNext visit-state machine, cache eviction and lazy loading from the node database (all exercised by the correspondence runs only).",
+    "level_note": "Trusted: Coq kernel; harness. The byte-level doNext state machine and the byte-wise key functions are ported and proved (doNext_refines_seek, key_split/merge/appendbit/cpl); cache eviction is covered by an abstract model (eviction_invisible, insert_eviction_off_path_invisible, with the refuted variants reproducing findings F1 and F2); LRU order, the node database and (de)serialization are exercised by the correspondence runs only.",
 }
